@@ -69,16 +69,17 @@ const (
 	c38Metadata
 	c38Rank
 	c38LatestCommitDate
+	c38BranchCount // second value: a third branch appended to the list, the first two unchanged
 	c38NDims
 )
 
-var c38DimNames = [c38NDims]string{"SizeMax", "TrigramMax", "LargeFiles", "DisableCTags", "CTagsPath", "ScipCTagsPath", "CTagsMustSucceed", "LanguageMap", "ShardMax", "Parallelism", "BranchVersions", "BranchNames", "RawConfig", "URL", "Templates", "Metadata", "Rank", "LatestCommitDate"}
+var c38DimNames = [c38NDims]string{"SizeMax", "TrigramMax", "LargeFiles", "DisableCTags", "CTagsPath", "ScipCTagsPath", "CTagsMustSucceed", "LanguageMap", "ShardMax", "Parallelism", "BranchVersions", "BranchNames", "RawConfig", "URL", "Templates", "Metadata", "Rank", "LatestCommitDate", "BranchCount"}
 
 // symbol-only dimensions (never part of a physical build)
 var c38SymDims = []int{c38DisableCTags, c38CTagsPath, c38ScipCTagsPath, c38CTagsMustSucceed, c38LanguageMap}
 
 // dimensions that decide which content is indexed / from which commit
-var c38ContentDims = []int{c38SizeMax, c38TrigramMax, c38LargeFiles, c38BranchVersions, c38BranchNames}
+var c38ContentDims = []int{c38SizeMax, c38TrigramMax, c38LargeFiles, c38BranchVersions, c38BranchNames, c38BranchCount}
 
 // c38Cfg holds the value index (0 or 1) of every dimension.
 type c38Cfg [c38NDims]uint8
@@ -186,6 +187,9 @@ func c38Options(c c38Cfg, dir string) index.Options {
 		Rank:             uint16(pick(c38Rank, 100, 200).(int)),
 		LatestCommitDate: pick(c38LatestCommitDate, c38T1, c38T2).(time.Time),
 	}
+	if c[c38BranchCount] != 0 {
+		o.RepositoryDescription.Branches = append(o.RepositoryDescription.Branches, zoekt.RepositoryBranch{Name: "extra", Version: "v-extra"})
+	}
 	if c[c38RawConfig] == 0 {
 		o.RepositoryDescription.RawConfig = map[string]string{"public": "1", "k": "v"}
 	} else {
@@ -212,6 +216,14 @@ func c38Options(c c38Cfg, dir string) index.Options {
 func c38Docs(o *index.Options) []index.Document {
 	b0 := o.RepositoryDescription.Branches[0].Name
 	b1 := o.RepositoryDescription.Branches[1].Name
+	docs := c38BaseDocs(b0, b1)
+	if len(o.RepositoryDescription.Branches) > 2 {
+		docs = append(docs, index.Document{Name: "extra.txt", Content: []byte("only on the third branch\n"), Branches: []string{o.RepositoryDescription.Branches[2].Name}})
+	}
+	return docs
+}
+
+func c38BaseDocs(b0, b1 string) []index.Document {
 	return []index.Document{
 		{Name: "a.txt", Content: []byte("hello world foo\n"), Branches: []string{b0, b1}},
 		{Name: "b.go", Content: []byte("package b\n"), Branches: []string{b0}},
@@ -819,7 +831,7 @@ func TestVerifC38(t *testing.T) {
 	r.Assume("physical builds run with ctags disabled (no ctags binary); an index built under symbol options is the physical build with the option hash of the full option set stamped through the .meta sidecar, and whether two option sets extract different symbols is decided by a model of buildShard/parseSymbols/NewParserBinMap (hash sensitivity only)")
 	r.Assume("the metadata update is a copy of cmd/zoekt-sourcegraph-indexserver mergeMeta (MergeMutable + .meta sidecar for every shard)")
 	r.Assume("one fixed five-document corpus; a change of branch versions stands for different content")
-	r.Finish("every pair (A,B) of configurations over 18 two-valued dimensions with A within 1 (thorough 2) dimensions of one of two bases and B within 2 dimensions of A: index under A, IndexState under B, differential comparison with a fresh index under B; a pair is non-trivial when A != B and content, symbol extraction or metadata of the two indexes differ")
+	r.Finish("every pair (A,B) of configurations over 19 two-valued dimensions with A within 1 (thorough 2) dimensions of one of two bases and B within 2 dimensions of A: index under A, IndexState under B, differential comparison with a fresh index under B; a pair is non-trivial when A != B and content, symbol extraction or metadata of the two indexes differ")
 }
 
 func c38ObsErr(o *c38Obs) string {
